@@ -318,27 +318,84 @@ def units_for(chk, F):
             body = body.get("expr") if body.get("k") == "Block" else body["e"]
         pnames = [p_.get("name") for p_ in cl.get("params", [])]
 
-        def comp(e):
+        def pat_binds(p_, sel=None, out=None):
+            """{local name: component of the element it is bound to} for a pattern over one element (`&(c, _)`, `(ref c, ref n)`, `x`)"""
+            out = {} if out is None else out
+            pk = p_.get("pk")
+            if pk in ("ref", "deref", "box") and p_.get("sub"):
+                pat_binds(p_["sub"], sel, out)
+            elif pk == "tuple":
+                for i_, q in enumerate(p_.get("subs", [])):
+                    pat_binds(q, str(i_) if sel is None else sel, out)
+            elif pk == "bind" and p_.get("name"):
+                out[p_["name"]] = sel if sel is not None else "*"
+                if p_.get("sub"):
+                    pat_binds(p_["sub"], sel, out)
+            return out
+
+        def comp(e, binds):
+            """(element parameter or bound local, component) an expression reads: `a.category` -> ('a', 'category'); a local bound by
+            the pattern `&(c1, _)` -> ('c1', '0')"""
             while e.get("k") in ("AddrOf", "DropTemps", "Paren") and e.get("e"):
                 e = e["e"]
             while e.get("k") == "Unary" and e.get("op") == "Deref":
                 e = e.get("a") or e.get("e")
             if e.get("k") == "Field" and (e.get("e") or {}).get("k") == "Path":
                 return (H.local_name(e["e"]) or (None,))[0], e["name"]
+            if e.get("k") == "Path" and H.local_name(e) and binds.get(H.local_name(e)[0]) not in (None, "*"):
+                return H.local_name(e)[0], binds[H.local_name(e)[0]]
             return None, None
         same_key = False
-        if body.get("k") == "Binary" and body.get("op") == "Eq" and len(pnames) == 2 and all(pnames):
-            (la, fa), (lb, fb) = comp(body["a"]), comp(body["b"])
-            same_key = {la, lb} == set(pnames) and fa == fb and fa is not None
+        ppats = cl.get("params", [])
+        pb = [pat_binds(p_) for p_ in ppats]
+        if body.get("k") == "Binary" and body.get("op") == "Eq" and len(ppats) == 2:
+            binds = dict(pb[0], **pb[1])
+            (la, fa), (lb, fb) = comp(body["a"], binds), comp(body["b"], binds)
+            two_sides = la is not None and lb is not None and ((la in pb[0]) != (lb in pb[0]) or {la, lb} == set(pnames))
+            same_key = two_sides and fa == fb and fa is not None
             # ... and that component is the category: it is what the group's `category` is made from, and what the sort orders by first
             if same_key:
                 mp0 = next((m_ for m_ in H.method_calls(arm["body"]) if m_["name"] == "map" and any(x is cb for x in hir_walk(m_["recv"]))), None)
-                lits = [n_ for n_ in hir_walk(mp0["args"][0]) if n_.get("k") == "Struct" and str(n_.get("ty", "")).endswith("UnitsInCategory")] if mp0 and mp0["args"] else []
+                mbody = mp0["args"][0] if mp0 and mp0["args"] else {}
+                lits = [n_ for n_ in hir_walk(mbody) if n_.get("k") == "Struct" and str(n_.get("ty", "")).endswith("UnitsInCategory")]
                 cat_init = next((f_["e"] for n_ in lits for f_ in n_["fields"] if f_["name"] == "category"), None)
-                from_cat = cat_init is not None and any(x.get("k") == "Field" and x.get("name") == fa for x in hir_walk(cat_init)) and \
-                    not any(x.get("k") == "Field" and x.get("name") != fa and str(x.get("of_ty", "")) == str(body["a"].get("of_ty", body["a"].get("e", {}).get("of_ty", "?"))) for x in hir_walk(cat_init))
-                sort_first = bool(srt) and srt[0]["args"] and any(m_.get("k") == "Match" and sum(1 for x in hir_walk(m_["scrut"]) if x.get("k") == "Field" and x.get("name") == fa) == 2
-                                                                   for m_ in hir_walk(srt[0]["args"][0]))
+                # components read on the way to the category: directly (`group[0].category`), or through locals bound from an element
+                # (`let (category, _) = group[0]`) and locals computed from those
+                mb = {}
+                lets = {}
+                for n_ in hir_walk(mbody):
+                    if n_.get("sk") == "let" and n_.get("pat") and n_.get("init") is not None:
+                        if n_["pat"].get("pk") in ("tuple", "ref"):
+                            pat_binds(n_["pat"], None, mb)
+                        elif n_["pat"].get("pk") == "bind":
+                            lets[n_["pat"]["name"]] = n_["init"]
+
+                def comps_in(e, depth=0):
+                    out_ = set()
+                    for x in hir_walk(e):
+                        if x.get("k") == "Field" and str(x.get("name")) == str(fa):
+                            out_.add(str(fa))
+                        elif x.get("k") == "Field" and str(x.get("of_ty", "")).startswith("(") or (x.get("k") == "Field" and "ListedUnit" in str(x.get("of_ty", ""))):
+                            out_.add(str(x.get("name")))
+                        elif x.get("k") == "Path" and H.local_name(x):
+                            nm_ = H.local_name(x)[0]
+                            if mb.get(nm_) not in (None, "*"):
+                                out_.add(mb[nm_])
+                            elif nm_ in lets and depth < 3:
+                                out_ |= comps_in(lets[nm_], depth + 1)
+                    return out_
+                from_cat = cat_init is not None and comps_in(cat_init) == {str(fa)}
+                sbinds = {}
+                sort_first = False
+                if srt and srt[0]["args"] and srt[0]["args"][0].get("k") == "Closure":
+                    for p_ in srt[0]["args"][0].get("params", []):
+                        pat_binds(p_, None, sbinds)
+                    for m_ in hir_walk(srt[0]["args"][0]):
+                        if m_.get("k") == "Match":
+                            reads = [comp(x, sbinds)[1] for x in hir_walk(m_["scrut"]) if x.get("k") in ("Field", "Path")]
+                            reads = [r_ for r_ in reads if r_ is not None]
+                            if reads and len(reads) == 2 and set(reads) == {fa}:
+                                sort_first = True
                 same_key = from_cat and sort_first
         users = [m_ for m_ in H.method_calls(arm["body"]) if any(x is cb for x in hir_walk(m_["recv"]))]
         names = [m_["name"] for m_ in users]
